@@ -15,7 +15,7 @@ HERE = os.path.dirname(os.path.abspath(__file__))
 ROOT = os.path.dirname(HERE)
 LEAN = os.path.join(ROOT, "lean")
 GEN = os.path.join(LEAN, "TfPwaV", "Gen")
-EVID = os.path.join(ROOT, "evidence")
+EVID = os.path.join(ROOT, "evidence") if not os.environ.get("VERIF_REPO") else "/tmp/verif_dev_evidence"  # development runs against a scratch tree never touch the committed evidence
 REPLAY = os.path.join(ROOT, "replay")
 REPO = os.environ.get("VERIF_REPO", "/repo")
 STD_AXIOMS = {"propext", "Classical.choice", "Quot.sound"}
@@ -294,6 +294,18 @@ def write_replay(pid, payload, tag=None):
 
 def write_evidence(pid, tier, level, coverage, assumptions, wall, violations):
     os.makedirs(EVID, exist_ok=True)
+    # schema hygiene: typed keys must have their types whatever a property module put there
+    if "exhaustive" in coverage and not isinstance(coverage["exhaustive"], bool):
+        coverage["exhaustive_scope"] = coverage["exhaustive"]
+        coverage["exhaustive"] = False
+    for k in ("evaluations", "distinct_nontrivial", "traces_validated_against_impl", "states", "transitions", "obligations", "discharged", "programs", "disagreements_checked"):
+        if k in coverage and not isinstance(coverage[k], int):
+            try:
+                coverage[k] = int(coverage[k])
+            except (TypeError, ValueError):
+                coverage[k + "_raw"] = coverage.pop(k)
+    if "samples" in coverage and not isinstance(coverage["samples"], list):
+        coverage["samples"] = [coverage["samples"]]
     ev = {
         "property_id": pid,
         "tier": tier,
